@@ -188,15 +188,20 @@ P('C12', claimed=True, level='proof',
               'opaque trace events, bi.mod/bi.roundup inlined from builtins.py. Trusted: z3.'),
   technique='contract-based deductive verification: class invariants + two-call lemma functions over the real method bodies, z3')
 
-P('C13', claimed=True, level='other', contracts=['seq_valuepatterns'], drivers=['vf.drivers.C13'],
-  level_text=('The series generators Pseries/Pgeom are under contract with `yield` as a ghost trace event '
-              '(per-pass inductive step of the denotation: first value = start, each pass draws the step '
-              'once, yields the current value, next = current (+|*) step, quiet end on exhaustion). Every '
-              'other __embed__ delegates with yield from (outside the provable subset): decided by '
-              'run-time contracts. All pattern expressions of depth <= 2 over 27 constructors and ~100k '
-              'seeded random deeper ones are streamed and compared with an independent compositional '
-              'list semantics; immutability and seeded determinism/support of random patterns are '
-              'contracts of their own.'),
+P('C13', claimed=True, level='other',
+  contracts=['seq_valuepatterns', 'seq_listpatterns', 'seq_filterpatterns'], drivers=['vf.drivers.C13'],
+  level_text=('Generator bodies under contract with `yield` / `yield from` as ghost trace events and per-pass '
+              'obligations (the inductive step of the denotation): Pseries/Pgeom (first value = start, each '
+              'pass draws the step once, yields the current value, next = current (+|*) step, quiet end on '
+              'exhaustion); Pseq (one repetition = items from offset to the end, then the items before it, each '
+              'embedded once with the threaded input value) and Pser (pass i embeds lst[(i + offset) mod size]); '
+              'Pn (same pattern every pass); Plen (one draw per pass, exactly that value yielded, quiet end); '
+              'Pconst (running sum grows by exactly the yielded value, last value = total - running sum in both '
+              'endings; telescoping lemma: the values add up to the total); Pstutter (one value and one count '
+              'per outer pass, a copy of that value per inner pass). Every other pattern is decided by run-time '
+              'contracts: all pattern expressions of depth <= 2 over 27 constructors and ~100k seeded random '
+              'deeper ones are streamed and compared with an independent compositional list semantics; '
+              'immutability and seeded determinism/support of random patterns are contracts of their own.'),
   level_note='Bounded: first 64 items; corners the documentation leaves open are left unspecified and listed in notes.')
 
 P('C14', claimed=True, level='other', contracts=['seq_event_keys'], drivers=['vf.drivers.C14'],
